@@ -35,4 +35,51 @@ package sdl
 //@   ensures [keys] forall i: int {result[i]} :: 0 <= i && i < len(result) ==> has(m, result[i])
 //@   ensures [complete] forall k: str {has(m, k)} :: has(m, k) ==> (exists i: int :: 0 <= i && i < len(result) && result[i] == k)
 
-//@ property C18 := v2DeploymentSvcNames#*, v2DeploymentPlacementNames#*
+// ---- C18 (part): what the tenant declared for a service reaches the manifest unchanged ----
+//@ import manifest "github.com/ovrclk/akash/manifest"
+//@ extern manifest.ParseServiceProtocol(input)
+//@   pure
+//@ func (*v2ComputeResources).toResourceUnits
+//@   trusted
+//@   modifies nothing
+// (A-LIB) sort.Slice reorders the elements of the slice it is given and touches nothing else; the reordering itself is
+// dropped here (no clause below speaks about the order or the contents of the expose list)
+//@ extern "sort".Slice(x, less)
+//@   pure
+//@ func (*v2).Manifest$1
+//@   trusted
+//@   pure
+// every service put into the manifest carries the name it is deployed under and the image, command, arguments,
+// environment and replica count declared for it (asserted where the service record is complete)
+//@ func (*v2).Manifest
+//@   requires sdl != nil
+//@   modifies nothing
+//@   oncall sort.Slice 1 assert msvc != nil && msvc.Name == svcName && msvc.Image == svc.Image && msvc.Command == svc.Command && msvc.Args == svc.Args && msvc.Env == svc.Env && msvc.Count == svcdepl.Count
+//@   loop 1 modifies newobjects
+//@   loop 1 invariant 0 <= iter && fresh(groups) && (forall k: str {groups[k]} :: has(groups, k) ==> groups[k] != nil && fresh(groups[k]) && (arr(groups[k].Services) == nil || fresh(groups[k].Services)) && 0 <= len(groups[k].Services) && len(groups[k].Services) <= cap(groups[k].Services))
+//@   loop 2 modifies newobjects
+//@   loop 2 invariant 0 <= iter && fresh(groups) && (forall k: str {groups[k]} :: has(groups, k) ==> groups[k] != nil && fresh(groups[k]) && (arr(groups[k].Services) == nil || fresh(groups[k].Services)) && 0 <= len(groups[k].Services) && len(groups[k].Services) <= cap(groups[k].Services))
+//@   loop 3 modifies newobjects
+//@   loop 3 invariant 0 <= iter && msvc != nil && fresh(msvc)
+//@   loop 3 invariant [name] msvc.Name == svcName
+//@   loop 3 invariant [image] msvc.Image == svc.Image
+//@   loop 3 invariant [command] msvc.Command == svc.Command
+//@   loop 3 invariant [args] msvc.Args == svc.Args
+//@   loop 3 invariant [env] msvc.Env == svc.Env
+//@   loop 3 invariant [count] msvc.Count == svcdepl.Count
+//@   loop 3 invariant fresh(groups) && (forall k: str {groups[k]} :: has(groups, k) ==> groups[k] != nil && fresh(groups[k]) && (arr(groups[k].Services) == nil || fresh(groups[k].Services)) && 0 <= len(groups[k].Services) && len(groups[k].Services) <= cap(groups[k].Services)) && group != nil && fresh(group) && (arr(group.Services) == nil || fresh(group.Services)) && 0 <= len(group.Services) && len(group.Services) <= cap(group.Services) && (arr(msvc.Expose) == nil || fresh(msvc.Expose)) && 0 <= len(msvc.Expose) && len(msvc.Expose) <= cap(msvc.Expose)
+//@   loop 4 modifies newobjects
+//@   loop 4 invariant 0 <= iter && msvc != nil && fresh(msvc)
+//@   loop 4 invariant [name] msvc.Name == svcName
+//@   loop 4 invariant [image] msvc.Image == svc.Image
+//@   loop 4 invariant [command] msvc.Command == svc.Command
+//@   loop 4 invariant [args] msvc.Args == svc.Args
+//@   loop 4 invariant [env] msvc.Env == svc.Env
+//@   loop 4 invariant [count] msvc.Count == svcdepl.Count
+//@   loop 4 invariant fresh(groups) && (forall k: str {groups[k]} :: has(groups, k) ==> groups[k] != nil && fresh(groups[k]) && (arr(groups[k].Services) == nil || fresh(groups[k].Services)) && 0 <= len(groups[k].Services) && len(groups[k].Services) <= cap(groups[k].Services)) && group != nil && fresh(group) && (arr(group.Services) == nil || fresh(group.Services)) && 0 <= len(group.Services) && len(group.Services) <= cap(group.Services) && (arr(msvc.Expose) == nil || fresh(msvc.Expose)) && 0 <= len(msvc.Expose) && len(msvc.Expose) <= cap(msvc.Expose)
+//@   loop 5 modifies newobjects
+//@   loop 5 invariant 0 <= len(names) && len(names) <= cap(names) && fresh(names)
+//@   loop 6 modifies newobjects
+//@   loop 6 invariant 0 <= iter && 0 <= len(result) && len(result) <= cap(result) && fresh(result)
+
+//@ property C18 := v2DeploymentSvcNames#*, v2DeploymentPlacementNames#*, (*v2).Manifest#*
